@@ -3,7 +3,7 @@
 //! `all_smems`, `ext_path` (chains of backward_ext / forward_ext from init_interval() or
 //! init_interval_with(c)). Intervals are resolved through the suffix array by Interval::occ.
 //! No expected value is computed here.
-use bio::alphabets::dna;
+use bio::alphabets::{dna, Alphabet};
 use bio::data_structures::bwt::{bwt, less, Less, Occ, BWT};
 use bio::data_structures::fmindex::{BiInterval, FMDIndex, FMIndex};
 use bio::data_structures::suffix_array::suffix_array;
@@ -34,8 +34,21 @@ struct Job {
 
 fn run_one(log: &mut Log, tag: &str, seqs: &[Vec<u8>], k: u32, job: &Job) {
     let sj: Vec<Value> = seqs.iter().map(|s| bytes(s)).collect();
-    if !log.begin(tag, json!({"seqs": sj, "k": k})) {
+    // less/Occ tables: 0 = dna::n_alphabet() (as in the docs), 1 = Alphabet "$ACGTN", 2 = "ACGTN" ('$' added
+    // by Occ::new itself). The reduced alphabets are legal ("alphabet must match the alphabet of the
+    // text") when sequences, patterns and extension symbols are upper case: backward_ext consults Occ
+    // for the symbols of "$TGCNA" up to the one it extends by.
+    let upper = |w: &[u8]| w.iter().all(|c| b"ACGTN".contains(c));
+    let upper_only = seqs.iter().all(|x| upper(x))
+        && job.smems.iter().all(|(p, _)| upper(p))
+        && job.all.iter().all(|(p, _)| upper(p))
+        && job.paths.iter().all(|(st, ops)| (*st < 0 || upper(&[*st as u8])) && ops.iter().all(|&(_, c)| upper(&[c])));
+    let tab: u8 = if upper_only { ((seqs.iter().map(|x| x.len()).sum::<usize>() + k as usize + job.smems.len()) % 3) as u8 } else { 0 };
+    if !log.begin(tag, json!({"seqs": sj, "k": k, "tab": tab})) {
         return;
+    }
+    if tab != 0 {
+        log.oblige("tables_from_reduced_alphabet");
     }
     let mut parts: Option<(Vec<usize>, BWT, Less, Occ)> = None;
     let r = log.call("build", json!({}), || {
@@ -46,7 +59,11 @@ fn run_one(log: &mut Log, tag: &str, seqs: &[Vec<u8>], k: u32, job: &Job) {
             text.extend(dna::revcomp(s));
             text.push(b'$');
         }
-        let alphabet = dna::n_alphabet();
+        let alphabet = match tab {
+            0 => dna::n_alphabet(),
+            1 => Alphabet::new(b"$ACGTN"),
+            _ => Alphabet::new(b"ACGTN"),
+        };
         let sa = suffix_array(&text);
         let b = bwt(&text, &sa);
         let l = less(&b, &alphabet);
@@ -84,14 +101,11 @@ fn run_one(log: &mut Log, tag: &str, seqs: &[Vec<u8>], k: u32, job: &Job) {
                 ivs.push(iv_json(&iv, &sa));
                 iv
             };
-            let mut alive = cur.forward().upper > cur.forward().lower;
+            // the chain goes on past empty intervals: extending the (empty) bi-interval of a string
+            // that does not occur gives the empty bi-interval of the extended string
             for &(d, c) in ops {
-                if !alive {
-                    break; // extending an empty interval is not defined
-                }
                 cur = if d == 0 { fmd.backward_ext(&cur, c) } else { fmd.forward_ext(&cur, c) };
                 ivs.push(iv_json(&cur, &sa));
-                alive = cur.forward().upper > cur.forward().lower;
             }
             json!({ "ivs": ivs })
         });
@@ -321,6 +335,36 @@ pub fn drive(log: &mut Log) {
             }
         }
         log.oblige("ext_every_symbol");
+        // walks that run into an empty interval early (a symbol absent from the whole index when there
+        // is one) and go on in both directions
+        {
+            let absent: Vec<u8> = DNA.iter().cloned().filter(|c| !text.contains(c)).collect();
+            let pool: &[u8] = if alpha.iter().all(|c| b"ACGTN".contains(c)) { b"ACGTN" } else { DNA };
+            for w in 0..3u64 {
+                let x = if !absent.is_empty() && absent.iter().any(|c| pool.contains(c)) {
+                    *absent.iter().find(|c| pool.contains(c)).unwrap()
+                } else {
+                    *rng.pick(pool)
+                };
+                let mut ops: Vec<(u8, u8)> = vec![];
+                for _ in 0..rng.range(0, 2) {
+                    ops.push((rng.below(2) as u8, *rng.pick(alpha)));
+                }
+                ops.push(((w % 2) as u8, x));
+                for _ in 0..rng.range(1, 4) {
+                    ops.push((rng.below(2) as u8, *rng.pick(pool)));
+                }
+                if w == 2 {
+                    job.paths.push((x as i32, ops));
+                } else {
+                    job.paths.push((-1, ops));
+                }
+                if !absent.is_empty() {
+                    log.oblige("ext_past_empty_absent_symbol");
+                }
+            }
+            log.oblige("ext_past_empty");
+        }
         run_one(log, "rnd", &seqs, k, &job);
         if nseq > 1 {
             log.oblige("several_sequences");
